@@ -1,4 +1,17 @@
 """C04 — results do not depend on thread count or thread interleaving."""
+# SIZE AUDIT (quick tier), measured on cases('quick', Random(1)): bit length of n handed to threads_run (= factor() with a thread pool)
+# sizes the code supports: factor() refuses above 500 bits; qs/mpqs/siqs take u64-sized n through the same Uint code (no u64 fast
+# path in the sieves' drivers) and are practical to ~200 bits in a check; ecm / auto run on ZmodN of 1..8 words; the pool is used by
+# qs, mpqs, siqs (workers adding to the shared relation store) and by ecm (curves in parallel; ecm_auto inside auto above 128 bits).
+#   selector  quick max  thorough max  supported     boundary lengths reached by quick BEFORE this audit (count)
+#   siqs      176        184           448           63 (9), 64 (3), 80 (9); 65: none; 128/129: none
+#   mpqs      99         100           448           63 (9), 64 (3), 80 (9); 65: none
+#   qs        96         96            400           63 (3), 64 (6), 80 (9); 65: none
+#   auto      130        130           500           129 (6); nothing above 130: the threaded ecm_auto never ran on 3..8 words
+#   ecm       100        100           500           none: the threaded curve loop only ever ran on 2-word moduli (70 / 100 bits)
+# Added: boundary_cases (both tiers, first, own rng stream; ~50 runs, about 3 s per profile): siqs / mpqs / qs on balanced semiprimes
+# of exactly 65 bits (first size that does not fit one word), siqs at 129; ecm with pools on 65, 129, 193, 257, 449, 500 bits and auto
+# on 65, 257, 385, 500 bits (a 22..30-bit factor times a prime, so the run ends in milliseconds), each with its single-threaded baseline.
 from vlib.pipeline import Case
 from vlib import gen
 from props import factor_common as fc
@@ -12,7 +25,9 @@ THEOREMS = ["Ymq.C04.sched_inv", "Ymq.C04.sched_done_monotone", "Ymq.C04.sched_b
             "Ymq.C04Shape.sched_inv_shape", "Ymq.C04Shape.sched_inv_any_programs", "Ymq.C04Shape.shape_adds_exactly", "Ymq.C04Shape.source_shapes_ok"]
 PROFILES = ["release", "chk"]
 TIMEOUT = 180.0
-RULE = ("real runs of qs/mpqs/siqs/auto/ecm with thread pools of 1,2,3,4,8,16 threads and a seeded yield/sleep before every "
+RULE = ("boundary family first, in both tiers: pools on siqs/mpqs/qs at exactly 65 bits, siqs at 129, ecm at 65..500 and auto at 65..500 bits "
+        "(small factor times a prime: every ZmodN word count), each against its single-threaded baseline; then: "
+        "real runs of qs/mpqs/siqs/auto/ecm with thread pools of 1,2,3,4,8,16 threads and a seeded yield/sleep before every "
         "relation-store lock acquisition and completion check; inputs of 60-140 bits (small ones finish within a few polynomials, "
         "so workers contend on completion; larger ones use single and forced double large primes); the write-lock order of all "
         "adds is recorded; non-trivial = a run in which at least two threads added relations; distinct by request line")
@@ -30,8 +45,42 @@ _baseline = {}
 _stats = {"runs": 0, "multi_thread_runs": 0, "adds": 0, "stores": 0, "max_threads_seen": 0}
 
 
+def _fork(rng, label):
+    """own stream for the boundary family: depends on the run's seed, leaves the stream of the older families untouched"""
+    import random
+    return random.Random(f"{label}:{rng.getstate()[1][:4]}")
+
+
+def _exact_product(rng, bits, pbits):
+    """primes p (pbits bits) and q with p*q of EXACTLY `bits` bits"""
+    while True:
+        p, q = gen.rand_prime(rng, pbits), gen.rand_prime(rng, bits - pbits + rng.randrange(2))
+        if p != q and (p * q).bit_length() == bits:
+            return sorted([p, q])
+
+
+# (selector, exact bit length of n, bit length of the smaller prime): inputs that finish in milliseconds at every size class
+BOUNDARY_SPEC = [("siqs", 65, 32), ("mpqs", 65, 32), ("qs", 65, 32), ("siqs", 129, 64), ("auto", 65, 32),
+                 ("ecm", 65, 24), ("ecm", 129, 30), ("ecm", 193, 30), ("ecm", 257, 30), ("ecm", 449, 22), ("ecm", 500, 22),
+                 ("auto", 257, 30), ("auto", 385, 22), ("auto", 500, 22)]
+
+
+def boundary_cases(rng, tier):
+    """thread pools at the size classes the random families never reach (see SIZE AUDIT); same judgement as everywhere:
+    the run with a pool must be complete whenever its single-threaded baseline is"""
+    for alg, bits, pb in BOUNDARY_SPEC:
+        fs = _exact_product(rng, bits, pb)
+        n = fc.prod(fs)
+        tag = ",".join(map(str, fs))
+        yield Case(f"threads_run {n} {alg} 0 0", k=False, tag=tag)
+        for t in (rng.sample([2, 3, 4], 1) + rng.sample([8, 16], 1)) if tier == "quick" else (1, 2, 3, 4, 8, 16):
+            jit = rng.getrandbits(32) | 1 if alg != "mpqs" or t > 4 else 0      # (jitter on a 2-thread mpqs run costs a second)
+            yield Case(f"threads_run {n} {alg} {t} {jit}", k=False, tag=tag)
+
+
 def cases(tier, rng, extended=False):
     quick = tier == "quick"
+    yield from boundary_cases(_fork(rng, "C04-boundary"), tier)
     reps = 4 if quick else 20
     if extended:
         reps *= 3
